@@ -34,7 +34,8 @@ Record crop_in := {
 
 (* SEED_PERCENT = 100 * (92 / 3898);  ANNUAL_YIELD = BASELINE * (1 - SEED_PERCENT / 100) *)
 Definition seed_percent : Q := 100 * (92 / 3898).
-Definition annual_yield (c : crop_in) : Q := cbase c * (1 - seed_percent / 100).
+(* Qred q == q: it only keeps the representation of the rational small when the model is evaluated *)
+Definition annual_yield (c : crop_in) : Q := Qred (cbase c * (1 - seed_percent / 100)).
 
 (* X_KCALS_OG = X_FRACTION * ANNUAL_YIELD * 4e6 / 1e9, January first *)
 Definition month_cycle_jan (c : crop_in) : list Q :=
@@ -80,10 +81,12 @@ Section WithPower.
 
   (* assign_reduction_from_climate_impact *)
   Definition grown_climate (c : crop_in) : list Q :=
-    tab (cN c) (fun i => nthq (months_cycle c) (i mod 12) * relocated (eff_exp c) (nthq (reductions c) i)).
+    let cyc := months_cycle c in let reds := reductions c in let e := eff_exp c in
+    tab (cN c) (fun i => nthq cyc (i mod 12) * relocated e (nthq reds i)).
 
   Definition norel_grown (c : crop_in) : list Q :=
-    tab (cN c) (fun i => nthq (months_cycle c) (i mod 12) * clamp0 (nthq (reductions c) i)).
+    let cyc := months_cycle c in let reds := reductions c in
+    tab (cN c) (fun i => nthq cyc (i mod 12) * clamp0 (nthq reds i)).
 
   (* assign_increase_from_increased_cultivated_area: the ramp "linspace" *)
   Definition area_ramp (c : crop_in) : list Q :=
@@ -126,9 +129,10 @@ Section WithPower.
 
   (* assign_productivity_reduction_from_climate_impact (GH_KCALS_GROWN_PER_HECTARE) *)
   Definition gh_kcals_per_ha_grown (c : crop_in) (g : gh_in) : list Q :=
-    let monthly := (qsum (months_cycle c) / 12) / total_crop_area g in
-    let coef := (1 - cwd c / 100) * (1 - cwr c / 100) in
-    tab (cN c) (fun i => coef * (monthly * relocated (eff_exp c) (nthq (reductions c) i))).
+    let monthly := Qred ((qsum (months_cycle c) / 12) / total_crop_area g) in
+    let coef := Qred ((1 - cwd c / 100) * (1 - cwr c / 100)) in
+    let reds := reductions c in let e := eff_exp c in
+    tab (cN c) (fun i => coef * (monthly * relocated e (nthq reds i))).
 
   (* get_greenhouse_yield_per_ha (kcals; KCAL_RATIO_ROTATION = 1) and the product with the area
      that Parameters.init_greenhouse_params hands to the optimiser *)
@@ -142,12 +146,13 @@ Section WithPower.
   (* set_crop_production_minus_greenhouse_area: crops_produced, then production.kcals *)
   Definition crops_produced (c : crop_in) (frac : list Q) : list Q :=
     if cadd c then
+      let nr := norel_grown c in
       if crot c then
         let hd := (chd c + crotdelay c)%nat in
-        tab (cN c) (fun i =>
-          (if (i <? hd)%nat then nthq (norel_grown c) i else nthq (grown c) i) * (1 - nthq frac i))
+        let gr := grown c in
+        tab (cN c) (fun i => (if (i <? hd)%nat then nthq nr i else nthq gr i) * (1 - nthq frac i))
       else
-        tab (cN c) (fun i => nthq (norel_grown c) i * (1 - nthq frac i))
+        tab (cN c) (fun i => nthq nr i * (1 - nthq frac i))
     else rep 0 (cN c).
 
   Definition outdoor_production (c : crop_in) (g : gh_in) : list Q :=
@@ -164,11 +169,11 @@ Section WithPower.
     (if Qlt_bool 0 (cr1 c - hbm) then Qle_bool 0 (1 - hbm) && Qle_bool (1 - hbm) 1 else true).
 
   Definition reductions_ok (c : crop_in) : bool :=
-    forallb (fun i => let r := nthq (reductions c) i in
+    let cyc := months_cycle c in let reds := reductions c in let e := eff_exp c in
+    forallb (fun i => let r := nthq reds i in
                       Qlt_bool (- (5 # 1000000000)) r &&
                       (* assert KCALS_GROWN[-1] >= month_kcals * baseline_reduction *)
-                      Qle_bool (nthq (months_cycle c) (i mod 12) * clamp0 r)
-                               (nthq (months_cycle c) (i mod 12) * relocated (eff_exp c) r))
+                      Qle_bool (nthq cyc (i mod 12) * clamp0 r) (nthq cyc (i mod 12) * relocated e r))
             (seq 0 (cN c)).
 
   Definition area_ok (c : crop_in) : bool :=
@@ -177,9 +182,12 @@ Section WithPower.
     else true.
 
   Definition crops_ok (c : crop_in) (g : gh_in) : bool :=
-    (List.length (cseas c) =? 12)%nat && (List.length (crs c) =? 9)%nat &&
-    (1 <=? cstart c)%nat && (cstart c <=? 12)%nat && (cN c <=? 120)%nat &&
-    seas_sum_ok c && year1_ok c && reductions_ok c && area_ok c &&
+    (* calculate_monthly_production only runs when crops or greenhouses are switched on *)
+    (if cadd c || gadd g then
+       (List.length (cseas c) =? 12)%nat && (List.length (crs c) =? 9)%nat &&
+       (1 <=? cstart c)%nat && (cstart c <=? 12)%nat && (cN c <=? 120)%nat &&
+       seas_sum_ok c && year1_ok c && reductions_ok c && area_ok c
+     else true) &&
     (if gadd g then (42 <=? cN c)%nat && Qle_bool 0 (total_crop_area g) else true).
 End WithPower.
 
